@@ -160,6 +160,13 @@ func (c *stateCtx) runCase(it item, path string) (o outcome) {
 	}
 	v := c.cv.judge(blk)
 	o.class = v.class(blk.Hash(), c.b.Hash())
+	if d.Seq == "ahead" {
+		v = c.cv2.judge(blk)
+		o.class = "ahead-" + v.class(blk.Hash(), c.b2.Hash())
+	}
+	if d.Seq == "mirror" {
+		o.class = "mirror-" + o.class
+	}
 	base.Why = v.Why
 	if d.Seq == "twice" {
 		o.class = "i" // relative to the tip after the first delivery
@@ -226,6 +233,10 @@ func (c *stateCtx) runCase(it item, path string) (o outcome) {
 			return false
 		}
 		return true
+	}
+	if d.Seq == "ahead" || d.Seq == "mirror" {
+		c.runAhead(n, d, blk, v, pre, ctl, &o, bad)
+		return
 	}
 	if d.Seq == "twice" {
 		if err := n.Persist(); err != nil {
@@ -382,6 +393,162 @@ func (c *stateCtx) runCase(it item, path string) (o outcome) {
 		}
 	}
 	return
+}
+
+// runAhead handles the two sequences in which headers are known in advance.
+//
+//	ahead:  AddHeaders(b, x) ; AddBlock(b) ; AddBlock(x)      x = corrupted successor of b
+//	mirror: AddHeaders(b, b2); AddBlock(x) ; AddBlock(b) ; AddBlock(b2)   x = corrupted b
+//
+// Demanded: no invalid block is ever accepted; every rejected delivery leaves
+// ledger state, mempool and (after a flush) the raw database unchanged except
+// for header keys of headers that are validly signed and linked. A header
+// whose only defect is its previous state root counts as signed and linked:
+// the node cannot know better before the predecessor block is processed. In
+// that situation (and only then) the valid b may be refused as well.
+func (c *stateCtx) runAhead(n *chainx.Node, d *delivery, x *block.Block, v verdict, pre snap, ctl *control, o *outcome, bad func(what, errText string, diff []string, note string)) {
+	try := func(f func() error) (err error) {
+		o.execs++
+		if perr := chainx.Try(func() { err = f() }); perr != nil {
+			bad("panic", perr.Error(), nil, "")
+			return perr
+		}
+		return err
+	}
+	bb, _ := chainx.DecodeBlock(c.bBytes, c.fam.SRIH)
+	second := x
+	if d.Seq == "mirror" {
+		second, _ = chainx.DecodeBlock(c.b2Bytes, c.fam.SRIH)
+	}
+	// is the second header signed and linked (state root aside)?
+	linked := true
+	for _, w := range c.cv2.headerRules(&second.Header) {
+		if w != ruleStateRoot {
+			linked = false
+		}
+	}
+	herr := try(func() error { return n.BC.AddHeaders(&bb.Header, &second.Header) })
+	s1, err := takeSnap(n, c.maxID)
+	if err != nil {
+		bad("unreadable-after-headers", err.Error(), nil, "")
+		return
+	}
+	if df := pre.diff(s1, false); len(df) != 0 {
+		bad("header-delivery-changed-state", errClass(herr), df, "")
+		return
+	}
+	secondRecorded := s1.HdrHash == second.Hash().StringLE()
+	if secondRecorded && !linked {
+		bad("invalid-header-recorded", errClass(herr), pre.diff(s1, true), "second header of an AddHeaders batch")
+		return
+	}
+	if d.Seq == "mirror" && !secondRecorded {
+		o.harness = "mirror: the headers of b and b2 were not recorded: " + errClass(herr)
+		return
+	}
+	if err := n.Persist(); err != nil {
+		bad("flush-failed", err.Error(), nil, "")
+		return
+	}
+	hdrKeys := func(k string) bool {
+		return headerKey(k, bb.Hash()) || (linked && headerKey(k, second.Hash()))
+	}
+	if d.Seq == "mirror" {
+		xerr := try(func() error { return n.BC.AddBlock(x) })
+		o.errText = errClass(xerr)
+		s2, _ := takeSnap(n, c.maxID)
+		if xerr == nil {
+			o.result = "accepted"
+			if !v.Valid() {
+				bad("accepted-invalid-block", "", s1.diff(s2, true), "headers of the valid block and of its valid successor were known in advance."+c.probeAccepted(n, x, s2))
+			}
+			return
+		}
+		o.result = "rejected"
+		if df := s1.diff(s2, true); len(df) != 0 {
+			bad("rejected-block-changed-state", xerr.Error(), df, "headers of b and b2 known in advance")
+			return
+		}
+		_ = n.Persist()
+		if df, _ := dumpDiff(ctl.dump, rawDump(n.Store), hdrKeys); len(df) != 0 {
+			bad("rejected-block-changed-database", xerr.Error(), df, "headers of b and b2 known in advance")
+			return
+		}
+		if err := try(func() error { return n.AddBytes(c.bBytes) }); err != nil {
+			bad("valid-block-rejected-after-rejection", err.Error(), nil, "headers of b and b2 known in advance")
+			return
+		}
+		if err := try(func() error { return n.AddBytes(c.b2Bytes) }); err != nil {
+			bad("valid-successor-rejected", err.Error(), nil, "headers of b and b2 known in advance")
+			return
+		}
+		s3, _ := takeSnap(n, c.maxID)
+		if s3.Root != c.b2Root {
+			bad("valid-blocks-give-other-state", "", []string{"StateRoot: " + s3.Root + " != " + c.b2Root}, "")
+		}
+		return
+	}
+	// ---- ahead ----
+	berr := try(func() error { return n.BC.AddBlock(bb) })
+	s2, err := takeSnap(n, c.maxID)
+	if err != nil {
+		bad("unreadable-after-valid-block", err.Error(), nil, "")
+		return
+	}
+	base := ctl.dumpB
+	if berr == nil {
+		if df := ctl.afterB.diff(s2, false); len(df) != 0 {
+			bad("valid-block-gives-other-state", "", df, "successor header known in advance")
+			return
+		}
+	} else {
+		base = ctl.dump
+		if !(secondRecorded && !v.HeaderOK) {
+			bad("valid-block-rejected", berr.Error(), nil, "successor header known in advance")
+			return
+		}
+		o.errText = "b refused: " + errClass(berr) + " / "
+		if df := s1.diff(s2, false); len(df) != 0 {
+			bad("rejected-block-changed-state", berr.Error(), df, "the valid block, refused because of the recorded successor header")
+			return
+		}
+	}
+	xerr := try(func() error { return n.BC.AddBlock(x) })
+	o.errText += errClass(xerr)
+	s3, err := takeSnap(n, c.maxID)
+	if err != nil {
+		bad("unreadable-after-delivery", err.Error(), nil, "")
+		return
+	}
+	if xerr == nil {
+		o.result = "accepted"
+		if !v.Valid() {
+			bad("accepted-invalid-block", "", s2.diff(s3, true), "its header and the header of its predecessor were delivered through AddHeaders before the predecessor block."+c.probeAccepted(n, x, s3))
+		} else if s3.Height != s2.Height+1 || s3.Hash != x.Hash().StringLE() {
+			bad("accepted-but-tip-not-advanced", "", s2.diff(s3, true), "")
+		}
+		return
+	}
+	o.result = "rejected"
+	if v.Valid() && berr == nil && sameBlock(x, c.b2Bytes) {
+		bad("valid-successor-rejected", xerr.Error(), nil, "")
+		return
+	}
+	if df := s2.diff(s3, false); len(df) != 0 {
+		bad("rejected-block-changed-state", xerr.Error(), df, "successor delivered after its header")
+		return
+	}
+	if err := n.Persist(); err != nil {
+		bad("flush-failed", err.Error(), nil, "")
+		return
+	}
+	if df, _ := dumpDiff(base, rawDump(n.Store), hdrKeys); len(df) != 0 {
+		if berr != nil {
+			bad("refused-block-changed-database:dropped-after-execution", berr.Error(), df, "the valid block was executed and then refused by storeBlock because the recorded successor header carries another previous state root; raw database after a flush compared with a replica that got nothing (keys 0x73/0x72 = NEP-17/11 transfer logs)")
+			return
+		}
+		bad("rejected-block-changed-database", xerr.Error(), df, "raw database after a flush; headers delivered in advance")
+	}
 }
 
 // probeAccepted describes what the ledger holds after it accepted an invalid
